@@ -220,7 +220,8 @@ type Frame struct {
 	frameAssumed bool   // frame obligations are assumed (proved by another contract of the same function)
 	callLines    [2]int // lines holding the assumed postconditions of the most recent call
 	pendingArgs  []Val
-	callPre      *State // state just before the most recent call (at(call, e) in 'after call' ghost blocks)
+	renamed      map[string]string // contract name -> current name (positional re-binding, rename.go)
+	callPre      *State            // state just before the most recent call (at(call, e) in 'after call' ghost blocks)
 }
 
 type retEdge struct {
